@@ -341,6 +341,81 @@ static std::string do_rawrd(const Toks &t) {
 // ---------------------------------------------------------------- commands
 static std::string tmpfile_path() { return g_tmp + "/f" + std::to_string(getpid()) + ".bin"; }
 
+// ---------------------------------------------------------------- large-size headers
+// hdr <kind> <n> [<ext type>]: an object of n bytes / elements with deterministic content through the
+// real Writer; prints ONLY the bytes in front of the payload, the total length, whether the payload
+// bytes are the data, and what the real Reader gets back from the bytes (+ one sentinel byte).
+static inline unsigned char pat(size_t i) { return static_cast<unsigned char>((i * 131u + (i >> 8) * 17u + 7u) & 0xff); }
+static inline u64 mix(u64 h, u64 x) { return (h * 31u + x) & ((1ull << 62) - 1); }
+static u64 csum(const char *p, size_t n) { u64 h = 0; for (size_t i = 0; i < n; ++i) h = mix(h, static_cast<unsigned char>(p[i])); return h; }
+static std::string hdr_line(const std::string &b, size_t payload, const char *data, const std::string &readback) {
+  std::string tail = "-";
+  if (data) tail = (b.size() >= payload && std::memcmp(b.data() + (b.size() - payload), data, payload) == 0) ? "1" : "0";
+  return hex(b.substr(0, b.size() >= payload ? b.size() - payload : 0)) + " total=" + std::to_string(b.size()) + " tail=" + tail + " | " + readback;
+}
+template <typename T, typename F> static std::string readback(const std::string &b, T &y, F describe) {
+  try { std::string rest; rd(b + "\x5a", y, rest); return "rd " + describe(y) + " rest=" + std::to_string(rest.size()); }
+  catch (const primitiv::Error &) { return "rd err"; }
+  catch (const std::bad_alloc &) { return "rd err"; }
+}
+static std::string do_hdr(const Toks &t) {
+  const std::string &k = t.at(1); size_t n = std::stoull(t.at(2));
+  if (k == "str" || k == "bin" || k == "ext") {
+    std::string d(n, '\0'); for (size_t i = 0; i < n; ++i) d[i] = static_cast<char>(pat(i));
+    if (k == "str") {
+      std::string b = wr(d), y;
+      return hdr_line(b, n, d.data(), readback(b, y, [](const std::string &v) { return "n=" + std::to_string(v.size()) + " sum=" + std::to_string(csum(v.data(), v.size())); }));
+    }
+    if (k == "bin") {
+      msgpack::objects::Binary x(n, d.data()), y; std::string b = wr(x);
+      return hdr_line(b, n, d.data(), readback(b, y, [](const msgpack::objects::Binary &v) { return "n=" + std::to_string(v.size()) + " sum=" + std::to_string(csum(v.data(), v.size())); }));
+    }
+    msgpack::objects::Extension x(static_cast<std::int8_t>(std::stoi(t.at(3))), n, d.data()), y; std::string b = wr(x);
+    return hdr_line(b, n, d.data(), readback(b, y, [](const msgpack::objects::Extension &v) {
+      return "ty=" + std::to_string(int(v.type())) + " n=" + std::to_string(v.size()) + " sum=" + std::to_string(csum(v.data(), v.size())); }));
+  }
+  if (k == "arr") {
+    std::vector<std::uint32_t> x(n), y; for (size_t i = 0; i < n; ++i) x[i] = static_cast<std::uint32_t>(i * 2654435761u);
+    std::string b = wr(x);
+    return hdr_line(b, 5 * n, nullptr, readback(b, y, [](const std::vector<std::uint32_t> &v) { u64 h = 0; for (auto e : v) h = mix(h, e); return "n=" + std::to_string(v.size()) + " sum=" + std::to_string(h); }));
+  }
+  if (k == "map") {
+    std::unordered_map<std::uint32_t, std::uint32_t> x, y; x.reserve(n);
+    for (size_t i = 0; i < n; ++i) x.emplace(static_cast<std::uint32_t>(i), static_cast<std::uint32_t>(i * 2654435761u));
+    std::string b = wr(x);
+    return hdr_line(b, 10 * n, nullptr, readback(b, y, [](const std::unordered_map<std::uint32_t, std::uint32_t> &v) {
+      u64 h = 0; for (auto &e : v) h += static_cast<u64>(e.first) * 31u + e.second; return "n=" + std::to_string(v.size()) + " sum=" + std::to_string(h & ((1ull << 62) - 1)); }));
+  }
+  return "badcase";
+}
+// bigparam <n> <ws>: a Parameter of n floats (words (i * 2654435761) & 0xbfffffff: all finite) saved by the real
+// save(); prints the file bytes in front of the payload, the total length, the bytes after the payload, whether
+// the payload region is the little-endian image of the words, and whether the real load() into a fresh
+// Parameter gives back the shape and every word.
+static std::string do_bigparam(const Toks &t) {
+  size_t n = std::stoull(t.at(1)); bool ws = t.at(2) == "1";
+  auto word = [](size_t i) { return static_cast<std::uint32_t>(i * 2654435761u) & 0xbfffffffu; };
+  std::vector<float> v(n); for (size_t i = 0; i < n; ++i) v[i] = f_of_w(word(i));
+  Parameter p; p.init(Shape({static_cast<std::uint32_t>(n)}), v, g_dev);
+  std::string path = tmpfile_path();
+  p.save(path, ws);
+  std::string f = read_file(path);
+  size_t pay = 4 * n, suf = 5;
+  if (f.size() < pay + suf) return "short total=" + std::to_string(f.size());
+  size_t pre = f.size() - pay - suf;
+  bool img = true;
+  for (size_t i = 0; i < n && img; ++i) {
+    std::uint32_t w = word(i); const unsigned char *q = reinterpret_cast<const unsigned char *>(f.data()) + pre + 4 * i;
+    img = q[0] == (w & 255) && q[1] == ((w >> 8) & 255) && q[2] == ((w >> 16) & 255) && q[3] == (w >> 24);
+  }
+  std::string res = hex(f.substr(0, pre)) + " total=" + std::to_string(f.size()) + " suffix=" + hex(f.substr(f.size() - suf)) + " payload=" + (img ? "1" : "0");
+  Parameter q;
+  try { q.load(path, ws, g_dev); } catch (const std::exception &) { return res + " load=err"; }
+  std::vector<float> back = q.value().to_vector();
+  bool same = q.shape() == p.shape() && back.size() == n && std::memcmp(back.data(), v.data(), 4 * n) == 0;
+  return res + " load=ok same=" + (same ? "1" : "0");
+}
+
 static std::string do_save(const Toks &t) {
   size_t i = 1; Obj o = mk_obj(t, i);
   std::string path = tmpfile_path();
@@ -442,6 +517,8 @@ static std::string eval(const Toks &t) {
   if (f == "dmg") return do_dmg(t);
   if (f == "savefail") return do_savefail(t);
   if (f == "layout") return do_layout(t);
+  if (f == "hdr") return do_hdr(t);
+  if (f == "bigparam") return do_bigparam(t);
   return "badcase";
 }
 
